@@ -1,0 +1,8 @@
+//go:build !verif
+
+package io
+
+import "io"
+
+// verifWrapWriterAt is the verification seam; without the verif build tag it is the identity.
+func verifWrapWriterAt(w io.WriterAt) io.WriterAt { return w }
